@@ -4,7 +4,8 @@ suite passes with it, the demonstration fails with it and passes without it.  Ke
 ones under /verif/seeded/<prop>_<i>/ (patch.diff, demo.py, meta.json)."""
 import os, sys, json, subprocess, shutil
 
-OUT = "/tmp/seed_out"
+OUT = os.environ.get("SEED_OUT", "/tmp/seed_out")
+OFFSET = int(os.environ.get("SEED_OFFSET", "0"))
 PY = "/venv/bin/python"
 
 
@@ -21,10 +22,10 @@ def verify(prop, i):
     patch, demo, meta = (os.path.join(d, "%s%d.%s" % (n, i, x)) for n, x in (("patch", "diff"), ("demo", "py"), ("meta", "json")))
     if not (os.path.exists(patch) and os.path.exists(demo)):
         return None
-    dest = "/verif/seeded/%s_%d" % (prop, i)
+    dest = "/verif/seeded/%s_%d" % (prop, i + OFFSET)
     if os.path.exists(os.path.join(dest, "meta.json")):
         return "already kept"
-    wt = "/tmp/sv_%s_%d" % (prop, i)
+    wt = "/tmp/sv_%s_%d" % (prop, i + OFFSET)
     sh("git -C /repo worktree remove --force %s" % wt)
     rc, out = sh("git -C /repo worktree add -q --detach %s HEAD" % wt)
     if rc:
@@ -38,13 +39,12 @@ def verify(prop, i):
             return "patch does not apply to current HEAD: " + out[-300:]
         rct, ot = sh("%s -m pytest -q -p no:cacheprovider -n 6 2>&1 | tail -1" % PY, cwd=wt, env=env)
         rc1, o1 = sh("%s %s" % (PY, demo), cwd=wt, env=env)
-        rcd, diff = sh("git diff", cwd=wt)
+        rcd, diff = sh("git diff HEAD", cwd=wt)
         ok = rc0 == 0 and rc1 == 1 and "2939 passed, 24 xfailed, 1 xpassed" in ot
         res = {"demo_clean": rc0, "demo_patched": rc1, "tests": ot.strip()[-80:], "ok": ok}
         if ok:
             os.makedirs(dest, exist_ok=True)
-            with open(os.path.join(dest, "patch.diff"), "w") as f:
-                f.write(diff)
+            shutil.copy(patch, os.path.join(dest, "patch.diff"))
             shutil.copy(demo, os.path.join(dest, "demo.py"))
             m = json.load(open(meta)) if os.path.exists(meta) else {}
             m["confirmed"] = {"base": subprocess.check_output("git -C /repo rev-parse --short HEAD", shell=True, text=True).strip(),
